@@ -1079,6 +1079,7 @@ func c08_8(c *core.Ctx, p *core.Prog) {
 			pos := p.Pos(fn.Pos())
 			// first-row edges: Len() == 0 true edges
 			var firstRow []core.Edge
+			lateTest := ""
 			for _, b := range fn.Blocks {
 				iff := core.IfOf(b)
 				if iff == nil {
@@ -1094,6 +1095,17 @@ func c08_8(c *core.Ctx, p *core.Prog) {
 					continue
 				}
 				firstRow = append(firstRow, core.Edge{From: b, To: b.Succs[0]})
+				// the test looks at the builder before this call appended anything: an append that can precede
+				// the Len() makes the test false on the very row it is meant to catch
+				for _, ap := range appends {
+					if core.Reachable(fn, ap, cl) {
+						lateTest = p.Pos(cl.Pos())
+					}
+				}
+			}
+			if lateTest != "" {
+				c.Viol(key, pos, core.FuncName(fn), fmt.Sprintf("%s tests for the first row of a batch (builder.Len()==0 at %s) only after it has appended to the builder: the test never holds, so the delta base %s left by the previous batch leaks into this one", fn.Name(), lateTest, sf.Name()))
+				continue
 			}
 			if len(firstRow) == 0 {
 				// dictionary-only paths etc. are fine, but a plain builder path needs the test
